@@ -308,6 +308,11 @@ class Lexical:
             if isinstance(value, ftypes):
                 setattr(cls, name, value)
 
+import os as _os
+if _os.environ.get('PYTABLEAUX_VERIF') == '1': # pragma: no cover
+    from .. import _verif
+    Lexical.hashitem = staticmethod(_verif.make_hashitem())
+
 
 class LexicalAbc(Lexical, metaclass=LexicalAbcMeta, lexcopy=True):
     'Base class for non-Enum lexical classes.'
